@@ -25,13 +25,13 @@ class Unit:
     """one wrapper TU + defines -> one generated C file; `entries` = harness functions (VF_HARNESS names) to decide"""
     def __init__(s, prop, tu, name=None, defines=None, entries=None, narrow=32, unwind=6, unwindset=None, objbits=None, timeout=600,
                  tier='quick', exceptions=False, stubs=(), heap=512, slots=1, backend='cadical', cflags=(), rnd=(-3, 9), nvec=300,
-                 kf=None, per_entry=None, skip_entries=(), native_libs=(), wide_also=False, no_overflow_check=False):
+                 kf=None, per_entry=None, skip_entries=(), native_libs=(), wide_also=False, no_overflow_check=False, mustfire=False):
         s.prop = prop; s.tu = tu; s.defines = dict(defines or {}); s.entries = entries; s.narrow = narrow; s.unwind = unwind
         s.unwindset = dict(unwindset or {}); s.objbits = objbits; s.timeout = timeout; s.tier = tier; s.exceptions = exceptions
         s.stubs = list(stubs); s.heap = heap; s.slots = slots; s.backend = backend; s.cflags = list(cflags); s.rnd = rnd; s.nvec = nvec
         s.kf = dict(kf or {})            # entry name -> known-finding id (the entry is the finding's twin: expected to fail there)
         s.per_entry = dict(per_entry or {})  # entry -> dict(unwind=..., timeout=..., unwindset=..., objbits=...)
-        s.skip_entries = set(skip_entries); s.native_libs = list(native_libs); s.no_overflow_check = no_overflow_check
+        s.skip_entries = set(skip_entries); s.native_libs = list(native_libs); s.no_overflow_check = no_overflow_check; s.mustfire = mustfire
         s.name = name or (os.path.splitext(tu)[0] + ''.join('_%s%s' % (k, v) for k, v in sorted(s.defines.items())))
         s.name = re.sub(r'[^A-Za-z0-9_]', '_', s.name)
 
@@ -133,6 +133,7 @@ def run_cbmc(ctx, u, ir, entry):
            '--drop-unused-functions', '--json-ui', '--trace', '-DLL2C_HEAP_BYTES=%d' % u.heap]
     if not u.no_overflow_check: cmd += ['--signed-overflow-check']
     if narrow: cmd += ['-DLL2C_W=%d' % narrow]
+    if u.mustfire: cmd += ['-DLL2C_MUSTFIRE']
     if objbits: cmd += ['--object-bits', str(objbits)]
     if uws: cmd += ['--unwindset', ','.join('%s:%d' % kv for kv in uws.items())]
     cmd += CBMC_BACKENDS[pe.get('backend', u.backend)]
@@ -170,6 +171,7 @@ def run_cbmc(ctx, u, ir, entry):
 
 def classify(desc):
     if desc.startswith('REACH '): return 'reach'
+    if desc.startswith('MUSTFIRE '): return 'mustfire'
     if desc.startswith('VF '): return 'vf'
     if desc.startswith('LIBASSERT ') or desc.startswith('ASSERT '): return 'libassert'
     if desc.startswith('NARROW ') or desc.startswith('RT '): return 'encoding'
@@ -254,7 +256,7 @@ def do_check(ctx, registry, a):
         return 2
     for f in cf.as_completed(cb_f):
         r = f.result(); results.append(r)
-        np_ = len(r['props']); nf = sum(1 for p in r['props'] if p['status'] == 'FAILURE' and classify(p['desc']) != 'reach')
+        np_ = len(r['props']); nf = sum(1 for p in r['props'] if p['status'] == 'FAILURE' and classify(p['desc']) not in ('reach', 'mustfire'))
         ctx.say('  %-28s %-22s %-8s %4d props %3d failed  %6.1fs %5d MB' % (r['unit'], r['entry'], r['status'], np_, nf, r['solver_s'], r['rss_kb'] // 1024))
     # translator validation, seeded by the solver's witnesses
     wseeds = {}
@@ -284,11 +286,21 @@ def do_check(ctx, registry, a):
                 if not kf_id: problems.append('BROKEN %s: witness "%s" is not reachable (vacuous harness)' % (tag, p['desc']))
                 continue
             ev, _ = events(natives[u.name]['real'], 'replay', r['entry'], p.get('inputs', []))
-            okw = ('R ' + p['desc']) in ev and not any(e.startswith('A 0') or e[0] in 'LSTXE' for e in ev)
+            okw = ('R ' + p['desc']) in ev and not any(e.startswith('A 0') or e[0] in ('STXE' if u.mustfire else 'LSTXE') for e in ev)
             if okw: validated += 1; r.setdefault('witness_inputs', p.get('inputs', []))
             elif not kf_id:
                 problems.append('BROKEN %s: witness trace for "%s" does not replay on the real build: inputs=%s events=%s' % (tag, p['desc'], p.get('inputs'), ev[-6:]))
-        fails = [p for p in r['props'] if p['status'] == 'FAILURE' and classify(p['desc']) != 'reach']
+        if u.mustfire:
+            # at least one library assertion must be shown to fire, and the firing must reproduce on the real build (an 'L' event)
+            mf = [p for p in r['props'] if classify(p['desc']) == 'mustfire' and p['status'] == 'FAILURE']
+            if not mf: problems.append('BROKEN %s: must-fire harness in which no library assertion can fire' % tag); r['witness_ok'] = False
+            nrep = 0
+            for p in mf:
+                ev, _ = events(natives[u.name]['real'], 'replay', r['entry'], p.get('inputs', []))
+                if ('L ' + p['desc'][len('MUSTFIRE '):]) in ev: nrep += 1; validated += 1
+                else: problems.append('BROKEN %s: firing of "%s" does not replay natively: inputs=%s events=%s' % (tag, p['desc'], p.get('inputs'), ev[-4:]))
+            r['mustfire_sites'] = [p['desc'] for p in mf]
+        fails = [p for p in r['props'] if p['status'] == 'FAILURE' and classify(p['desc']) not in ('reach', 'mustfire')]
         others = [p for p in r['props'] if p['status'] not in ('SUCCESS', 'FAILURE')]
         if others: inconclusive.append('INCONCLUSIVE %s: %d properties undecided (%s)' % (tag, len(others), others[0]['status']))
         if kf_id is not None and kf_id in known_ids:
@@ -382,7 +394,7 @@ def write_evidence(ctx, a, units, builds, results, diffres, violations, known_hi
     for r in sorted(results, key=lambda r: (r['unit'], r['entry']))[:40]:
         samples.append(dict(harness=r['unit'] + ':' + r['entry'], bounds=r['bounds'], cbmc_properties=len(r['props']),
                             proved=sum(1 for p in r['props'] if p['status'] == 'SUCCESS'), solver_s=r['solver_s'], rss_kb=r['rss_kb'],
-                            witness_inputs=r.get('witness_inputs'), status=r['status'], known_finding=r.get('known_finding')))
+                            witness_inputs=r.get('witness_inputs'), status=r['status'], known_finding=r.get('known_finding'), mustfire_sites=r.get('mustfire_sites')))
     ev = dict(
         property_id=prop, tier=a.tier, seed=ctx.seed, level='model_checking',
         coverage=dict(
